@@ -42,7 +42,8 @@ CHECKS = {
          "whenever a height function exists (no named type reaches itself through unions/references only), for every environment; "
          "the unrestricted claim is refuted by `type A = A | string`, which overflows the compiler's stack (known finding). The "
          "property itself is decided by running the compiler: valid programs, one program per unsupported construct, token-level "
-         "mutations, enums across modules, missing/cyclic/self imports and a corpus of past failures, each in its own process under a "
+         "mutations, enums across modules, missing/cyclic/self imports, default exports (expression, list form, barrel), import types "
+         "with arguments, mapped types over no keys and a corpus of past failures, each in its own process under a "
          "watchdog with a panic hook; outcome must be code or >=1 diagnostic whose file is in the project and whose range lies in "
          "that file; every emitted module is imported in Node and must build every requested parser. Two genuine defects found by "
          "this check were repaired in /repo (fix: commits c6ff09c, bf757f0).",
@@ -85,7 +86,8 @@ CHECKS = {
          "on the oracle when two exports fail (refuted, the defect of the pinned tree) and is independent once the entries are visited "
          "in name order (the repaired code, fix: commit e838263). Tie: a syntactic scan lists every iteration over a HashMap-typed "
          "binding in beff-core/src and must equal the sites the model accounts for. The property is observed by compiling every "
-         "project several times in fresh processes with shuffled registration order and eager/lazy parsing and comparing bytes.",
+         "project several times in fresh processes with shuffled registration order and eager/lazy parsing and comparing bytes, and "
+         "three times within one process (state that survives a compilation).",
          "Determinism across processes cannot be stated in Gallina without the oracle; the scan is conservative and syntactic."),
  "C11": ("Theorem C11_except_known (for every validator tree and named environment without an intersection of two or more "
          "run-time members, every value and fuel): validate{strict} = validate{default} && no_extra; C11_refuted exhibits the "
